@@ -24,14 +24,16 @@ RULE = ("path stream (canonical_path / get_sanitized_output_path / is_relative_t
 ASSUMPTIONS = ["the audit hook sees every file-system mutation CPython performs; os.path.realpath of the parent decides the physical location",
                "POSIX only"]
 
-NAMES = ["a", "b", "a/b", "b/evil", "a/b/c", "..", "../x", "../../x", "a/../x", "a/../../x", "./a", "a/./b", "/abs_evil", "//abs2", "dest", "../dest/x", "a/", "x", "f"]
-TARGETS = [".", "..", "../..", "a", "a/..", "a/../..", "b", "x", "/etc", "JAIL_OUT", "JAIL_DEST", "../outside_file", "../outside_dir", "f", "a/../x"]
+NAMES = ["a", "b", "a/b", "b/evil", "a/b/c", "..", "../x", "../../x", "a/../x", "a/../../x", "./a", "a/./b", "/abs_evil", "//abs2", "dest", "../dest/x", "a/", "x", "f",
+         "a/../b", "a/../a", "./b", "b/../a", "a/../c", "c"]
+TARGETS = [".", "..", "../..", "a", "a/..", "a/../..", "b", "x", "/etc", "JAIL_OUT", "JAIL_DEST", "../outside_file", "../outside_dir", "f", "a/../x", "b/a", "a/../.."]
 
 
 def entry_space(rng, thorough):
     ents = []
     for n in NAMES:
         ents.append((n, "file", b"payload-" + n.encode()))
+        ents.append((n, "emptyfile", None))          # a file member without a stream (7-Zip's zero-length file): created with touch()
         ents.append((n, "dir", None))
         for t in TARGETS:
             ents.append((n, "symlink", t))
@@ -57,6 +59,13 @@ def gen_archives(rng, thorough):
         [("d", "dir", None), ("d/l", "symlink", "../.."), ("d/l/evil", "file", b"evil")],
         [("a", "symlink", "."), ("a/b", "symlink", ".."), ("b/outside_file", "file", b"clobber")],
         [("x", "file", b"1"), ("x", "symlink", "../outside_file"), ("x", "file", b"2")],
+        # the same member under another spelling, as a stream-less file: touch() follows a link standing there
+        [("a", "symlink", "."), ("b", "symlink", "a/.."), ("a/../b", "emptyfile", None)],
+        [("a", "symlink", "."), ("b", "symlink", "a/.."), ("c", "symlink", "b/a"), ("a/../c", "emptyfile", None)],
+        [("l", "symlink", "../outside_file"), ("./l", "emptyfile", None)],
+        [("a", "symlink", "."), ("l", "symlink", "a/../../outside_file"), ("a/../l", "emptyfile", None)],
+        [("a", "symlink", "."), ("b", "symlink", "a/.."), ("a/../b", "dir", None)],
+        [("a", "symlink", "."), ("b", "symlink", "a/.."), ("a/../b", "file", b"through")],
     ]
     out += chains
     n2 = 3000 if thorough else 700
@@ -74,6 +83,8 @@ def build(entries, jail, rng):
         if kind == "symlink":
             t = payload.replace("JAIL_OUT", os.path.join(jail, "outside_dir")).replace("JAIL_DEST", os.path.join(jail, "dest"))
             members.append({"name": name, "kind": "symlink", "data": t.encode(), "attr": c06.LINK_ATTR, "mtime": 130000000000000000, "ctime": None, "atime": None})
+        elif kind == "emptyfile":
+            members.append({"name": name, "kind": "emptyfile", "data": b"", "attr": c06.FILE_ATTR, "mtime": 125000000000000000, "ctime": None, "atime": None})
         elif kind == "dir":
             members.append({"name": name, "kind": "dir", "data": b"", "attr": c06.DIR_ATTR, "mtime": 130000000000000000, "ctime": None, "atime": None})
         else:
